@@ -502,6 +502,24 @@ Definition save (rel : Z) (old : option (list Z)) (f : fav) : saved :=
   | _ => SCrash
   end.
 
+(* The system calls of one Save, derived the way FavRaw.Save derives them:
+     filename := home/.fav
+     checkIsToSave: stat(filename) fails with "does not exist" -> save; otherwise save iff the file is older (rel > 0)
+     tmpFilename := home/.fav.tmp.<random>        (taken whether or not .fav exists: also the FIRST save goes
+                                                  through the temporary file)
+     os.Create(tmpFilename); one write(2) per chunk of the cleaned tree; os.Rename(tmpFilename, filename)
+   old = content of .fav before the save if it exists. [save] above hands exactly this list to Fs.exec. *)
+Definition writes (rel : Z) (old : option (list Z)) : bool :=
+  match old with None => true | Some _ => 0 <? rel end.
+Definition save_tmp_name (old : option (list Z)) : Z := FN_TMP.
+Definition save_syscalls (rel : Z) (old : option (list Z)) (f : fav) : list op :=
+  match cleanup f with
+  | Ok f1 => if writes rel old
+             then match file_chunks f1 with Ok cs => save_ops (save_tmp_name old) FN_FAV (map snd cs) | _ => [] end
+             else []
+  | _ => []
+  end.
+
 (* the process dies at the k-th crash point (k = 1 ..): the ops executed so far.
    Crash points: one before every BinaryWrite chunk, one before the rename. *)
 Fixpoint cut_points (cs : list chunk) (written : nat) : list nat :=
@@ -544,6 +562,53 @@ Definition dump_saved (nerr : Z) (pre : fav) (s : saved) : list Z :=
   | SCrash => [ST_CRASH]
   end.
 
+(* ---------------------------------------------------------------- a save over ANY initial content of the home directory
+   Other names of the user's home that the sweep plants / observes. *)
+Definition FN_FAV4 : Z := 2.     (* .fav4: the old format, converted by Load when there is no .fav (TryFav4Load -> Save) *)
+Definition FN_STALE : Z := 3.    (* .fav.tmp.<other postfix>: a temporary file left behind by an earlier crash *)
+Definition FN_BAK : Z := 4.      (* .fav.bak: copy of the new .fav made by TryFav4Load after its Save returned *)
+
+Definition opt_file (n flag : Z) (c : list Z) : fs := if flag =? 0 then [] else [(n, c)].
+
+(* every file of the home directory: how many, then (name, length, bytes) in the order of the names *)
+Definition dump_disk (s : fs) : list Z :=
+  let names := [FN_FAV; FN_TMP; FN_FAV4; FN_STALE; FN_BAK] in
+  let ent := fun n => match lookup n s with Some c => n :: lenZ c :: c | None => [] end in
+  lenZ (filter (fun n => match lookup n s with Some _ => true | None => false end) names) :: flat_map ent names.
+
+(* fav.Load on that directory afterwards: the tree of .fav; without .fav: nil (-1), or the .fav4 conversion runs (-2) *)
+Definition dump_load_after (s : fs) : list Z :=
+  match lookup FN_FAV s with
+  | None => match lookup FN_FAV4 s with None => [ST_OK; -1] | Some _ => [ST_OK; -2] end
+  | Some c => match load c with
+              | ROk t => let d := dump_fav t in ST_OK :: lenZ d :: d
+              | RErr e => [ST_ERR; e]
+              | RCrash => [ST_CRASH]
+              | RFuel => [ST_HANG]
+              end
+  end.
+
+(* the save of fn over disk dies at every crash point in turn, the last run completes: the whole directory and
+   what Load returns afterwards, each time. mode 1: the save is the one inside TryFav4Load (followed by the .bak copy) *)
+Definition sweep_disk (mode rel : Z) (disk : fs) (fn : fav) : list Z :=
+  let old := lookup FN_FAV disk in
+  match cleanup fn with
+  | Ok fn1 =>
+      match file_chunks fn1 with
+      | Ok cs =>
+          let allops := save_syscalls rel old fn in
+          let cuts := if writes rel old then cut_points cs 0 else [] in
+          let final0 := exec disk allops in
+          let final := if mode =? 1
+                       then match lookup FN_FAV final0 with Some c => set FN_BAK c final0 | None => final0 end
+                       else final0 in
+          let states := map (fun w => exec disk (firstn (S w) allops)) cuts ++ [final] in
+          lenZ cuts :: flat_map (fun s => dump_disk s ++ dump_load_after s) states
+      | _ => [ST_CRASH]
+      end
+  | _ => [ST_CRASH]
+  end.
+
 Fixpoint split_at_sep (gs : list (list Z)) : list (list Z) * list (list Z) :=
   match gs with
   | [] => ([], [])
@@ -557,7 +622,10 @@ Definition image_of (s : saved) : option (list Z) :=
 (* op 1: script, Save into an empty home, result = file bytes + returned tree
    op 2: Load of arbitrary file content
    op 3: [rel]; old script; [99]; new script: Save of the old tree, then Save of the new one with MTime set by rel
-   op 4: old script; [99]; new script: the save of the new tree dies at every crash point in turn *)
+   op 4: old script; [99]; new script: the save of the new tree dies at every crash point in turn
+   op 7: [hasfav; mode; rel]; 77 :: present :: .fav4 bytes; 78 :: present :: stale temp file bytes; old script; [99];
+         new script: the same sweep over any initial home directory (no .fav / .fav of the old script with the mtime
+         relation rel, a .fav4, a stale temporary file), observing every file of the directory and Load afterwards *)
 Definition run_case (args : list (list Z)) : list Z :=
   match args with
   | [1] :: ops =>
@@ -601,6 +669,22 @@ Definition run_case (args : list (list Z)) : list Z :=
               | _ => [ST_CRASH]
               end
           | _, _ => [ST_BADCASE]
+          end
+      | _, _ => [ST_BADCASE]
+      end
+  | [7] :: [hasfav; mode; rel] :: (77 :: p4 :: b4) :: (78 :: ps :: bs) :: ops =>
+      let '(o, n) := split_at_sep ops in
+      match run_script o empty_fav 0, run_script n empty_fav 0 with
+      | Some (fo, _), Some (fn, _) =>
+          let oldimg := if hasfav =? 0 then Some []
+                        else match save 1 None fo with SOk (Some img) _ => Some [(FN_FAV, img)] | _ => None end in
+          match oldimg with
+          | Some d0 =>
+              let disk := d0 ++ opt_file FN_FAV4 p4 b4 ++ opt_file FN_STALE ps bs in
+              let dold := dump_fav fo in
+              let dn := dump_fav fn in
+              [ST_OK; lenZ dold] ++ dold ++ [lenZ dn] ++ dn ++ sweep_disk mode rel disk fn
+          | None => [ST_BADCASE]
           end
       | _, _ => [ST_BADCASE]
       end
